@@ -23,8 +23,8 @@ package field
 //@ define iszero(e) = e.l0 == 0 && e.l1 == 0 && e.l2 == 0 && e.l3 == 0 && e.l4 == 0
 //@ define isone(e) = e.l0 == 1 && e.l1 == 0 && e.l2 == 0 && e.l3 == 0 && e.l4 == 0
 
-//@ globalinv [feZero] iszero(feZero)
-//@ globalinv [feOne] isone(feOne)
+//@ globalinv [X:feZero] iszero(feZero)
+//@ globalinv [X:feOne] isone(feOne)
 
 //@ func mul64(a, b)
 //@   mode lia
@@ -253,7 +253,7 @@ package field
 //@   ensures [value] len(x) == 64 ==> cong(lv(v), le(x, 64), P)
 //@   ensures [tight] len(x) == 64 ==> tight(v)
 
-//@ globalinv [sqrtM1] inv(sqrtM1) && cong(lv(sqrtM1) * lv(sqrtM1), 0 - 1, P)
+//@ globalinv [X:sqrtM1] inv(sqrtM1) && cong(lv(sqrtM1) * lv(sqrtM1), 0 - 1, P)
 
 //@ func (*Element).Invert(v, z)
 //@   mode ring
